@@ -101,7 +101,7 @@ theorem foldl_hintStep_ok {v : Variant} (hv : v.hintSafe = true) {d : Daemon}
 
 /-- the candidate chosen by `MHD_get_timeout64` has the earliest deadline of all connections in the
     two timeout lists that have a timeout -/
-theorem hintCand_ok {v : Variant} (hv : v.hintSafe = true) {d : Daemon} (h : Inv d) (hnow : d.now < 2 ^ 62) :
+theorem hintCand_ok {v : Variant} (hv : v.hintSafe = true) {d : Daemon} (h : Inv d) (hnow : d.now + d.back < 2 ^ 62) :
     CandOk d (fun x => x ∈ d.normal ∨ x ∈ d.manual) (hintCand v d) := by
   have hb : ∀ i, (d.c i).la < 2 ^ 62 ∧ (d.c i).tmo < 2 ^ 62 := by
     intro i; have a := h.laLe i; have b := h.tmoB i
@@ -142,8 +142,8 @@ theorem hintCand_ok {v : Variant} (hv : v.hintSafe = true) {d : Daemon} (h : Inv
 
 /-- **hint bound.**  In a state satisfying the invariant the hint is at most the time left to any
     connection's deadline plus the granularity, and 0 as soon as some deadline has passed. -/
-theorem hint_bound {v : Variant} (hv : v.hintSafe = true) {d : Daemon} (h : Inv d) (hnow : d.now < 2 ^ 62)
-    (hh : Nat) (heq : hint v d = some hh) (i : Id) (hi : i ∈ d.normal ∨ i ∈ d.manual) (hti : (d.c i).tmo ≠ 0) :
+theorem hint_bound {v : Variant} (hv : v.hintSafe = true) {d : Daemon} (h : Inv d) (hnow : d.now + d.back < 2 ^ 62)
+    (hback : d.back ≤ jumpBackLimit) (hh : Nat) (heq : hint v d = some hh) (i : Id) (hi : i ∈ d.normal ∨ i ∈ d.manual) (hti : (d.c i).tmo ≠ 0) :
     hh ≤ ((d.c i).la + (d.c i).tmo - d.now) + granularity ∧
     ((d.c i).la + (d.c i).tmo < d.now → hh = 0) := by
   unfold hint at heq
@@ -159,14 +159,16 @@ theorem hint_bound {v : Variant} (hv : v.hintSafe = true) {d : Daemon} (h : Inv 
       simp only [Option.map_some, Option.some.injEq] at heq
       obtain ⟨a1, a2, _, a4⟩ := hc
       have hle := a4 i hi hti
-      have g := getWait_bound d.now (d.c e) (h.laLe e) (by omega)
+      have hte : (d.c e).tmo < 2 ^ 63 := by
+        have := h.tmoB e; simp only [tmoMax, msPerSec] at this; omega
+      have g := getWait_bound_jump d.now (d.c e) (by have := h.laLe e; omega) (by omega) hte
       subst heq
       refine ⟨?_, ?_⟩
       · have := g.1; omega
-      · intro hx; exact g.2.1 (by omega)
+      · intro hx; exact g.2 (by omega)
 
 /-- the hint is "no timeout" only when nothing is pending and no listed connection has a timeout -/
-theorem hint_none {v : Variant} (hv : v.hintSafe = true) {d : Daemon} (h : Inv d) (hnow : d.now < 2 ^ 62)
+theorem hint_none {v : Variant} (hv : v.hintSafe = true) {d : Daemon} (h : Inv d) (hnow : d.now + d.back < 2 ^ 62)
     (heq : hint v d = none) : pending d = false ∧ ∀ i, i ∈ d.normal ∨ i ∈ d.manual → (d.c i).tmo = 0 := by
   unfold hint at heq
   split at heq
